@@ -33,7 +33,9 @@ Definition content_of (old : option bytes) (new : bytes) (r : cref) : option byt
   end.
 (* last component: (k, table index) = content really found on disk after the child was killed
    with SIGKILL on entry of the k-th observed system call *)
-Definition case := (option bytes * bytes * list cop * list (cref * Z) * list point * list (nat * nat))%type.
+(* 7th component: the contents of the leftover files (names 1..k) in the directory the save
+   starts from -- what earlier interrupted saves left behind; [] for a clean directory *)
+Definition case := (option bytes * bytes * list cop * list (cref * Z) * list point * list (nat * nat) * list bytes)%type.
 
 (* selection of partial-write lengths and of unsynced prefixes explored by the run *)
 Fixpoint dedup (l : list nat) : list nat :=
@@ -76,9 +78,9 @@ Fixpoint points_from (k : nat) (ops : list op) : list (nat * Z) :=
   end.
 Definition model_of (m : Z) : crash_model := if (m =? 0)%Z then Process else Power.
 
-Definition point_ok (old : option bytes) (table : list (option bytes * Z)) (pre : list op) (pt : point) : bool :=
+Definition point_ok_from (st0 : fs) (table : list (option bytes * Z)) (pre : list op) (pt : point) : bool :=
   let '(m, k, p, idxs) := pt in
-  match run (init_fs old) pre with
+  match run st0 pre with
   | None => false
   | Some st =>
       let model_set := crash_gen sel_prefixes (model_of m) tgt st in
@@ -98,19 +100,20 @@ Definition kp (pt : point) : nat * Z := let '(_, k, p, _) := pt in (k, p).
 Definition pk_eqb (a b : nat * Z) : bool := Nat.eqb (fst a) (fst b) && Z.eqb (snd a) (snd b).
 
 Definition ok (c : case) : bool :=
-  let '(old, new, cops, ctable, pts, reals) := c in
+  let '(old, new, cops, ctable, pts, reals, lft) := c in
+  let point_ok := point_ok_from (init_left old lft) in
   let ops := map (op_of new) cops in
   let table := map (fun e : cref * Z => (content_of old new (fst e), snd e)) ctable in
   let chunks := chunks_of ops in
   let prefs := crash_prefixes_gen sel_lens ops in
-  list_eqb op_eqb ops (store_ops chunks (has_dirsync ops))
+  list_eqb op_eqb ops (store_ops_named (S (length lft)) chunks (has_dirsync ops))
   && bytes_eqb (concat chunks) new
   && Nat.eqb (length (of_model 0 pts) + length (of_model 1 pts)) (length pts)
   && list_eqb pk_eqb (map kp (of_model 0 pts)) (points_from 0 ops)
   && list_eqb pk_eqb (map kp (of_model 1 pts)) (points_from 0 ops)
-  && zip_ok (point_ok old table) prefs (of_model 0 pts)
-  && zip_ok (point_ok old table) prefs (of_model 1 pts)
-  && forallb (fun r : nat * nat => point_ok old table (firstn (fst r) ops) (0%Z, fst r, (-1)%Z, [snd r])) reals
+  && zip_ok (point_ok table) prefs (of_model 0 pts)
+  && zip_ok (point_ok table) prefs (of_model 1 pts)
+  && forallb (fun r : nat * nat => point_ok table (firstn (fst r) ops) (0%Z, fst r, (-1)%Z, [snd r])) reals
   && forallb (fun e : option bytes * Z => Z.eqb (classify old new (fst e)) (snd e)) table.
 
 (* what the check explores, as a set of states (Proof/SessionFile.v: a subset of the
